@@ -1,6 +1,7 @@
 package main
 
 import (
+	"fmt"
 	"go/ast"
 	"strconv"
 	"strings"
@@ -28,6 +29,7 @@ type summary struct {
 	secVars  []string     // section variables (hash functions) the definition depends on
 	text     string
 	coqType  string
+	failed   bool // translation failed: marker definition only
 }
 
 // tr translates one function.
@@ -64,7 +66,7 @@ func (t *tr) fail(format string, args ...interface{}) {
 	if t.cur != nil {
 		where = t.p.pos(t.cur)
 	}
-	fatalf(where+": in "+t.p.name+"."+t.key+": "+format, args...)
+	panic(transErr{fmt.Sprintf(where+": in "+t.p.name+"."+t.key+": "+format, args...)})
 }
 
 func (t *tr) emit(line string) { t.lines = append(t.lines, line) }
